@@ -98,12 +98,11 @@ func iterateShared(fn subscription.IterateFn, options subscription.IterationOpti
 	}
 	// 查询指定clientID下的所有topic
 	if options.ClientID != "" {
-		for _, v := range index[options.ClientID] {
-			for _, c := range v.shared {
-				if sub, ok := c[options.ClientID]; ok {
-					if !fn(options.ClientID, sub) {
-						return false
-					}
+		for fullName, v := range index[options.ClientID] {
+			shareName, _ := subscription.SplitTopic(fullName)
+			if sub, ok := v.shared[shareName][options.ClientID]; ok {
+				if !fn(options.ClientID, sub) {
+					return false
 				}
 			}
 		}
@@ -288,7 +287,10 @@ func (db *TrieDB) SubscribeLocked(clientID string, subscriptions ...*gmqtt.Subsc
 				db.clientStats[clientID] = &subscription.Stats{}
 			}
 		}
-		if _, ok := index[clientID][topicName]; !ok {
+		// the shared index is keyed by the full name ($share/<ShareName>/<TopicFilter>),
+		// a client can join several groups on the same topic filter.
+		key := sub.GetFullTopicName()
+		if _, ok := index[clientID][key]; !ok {
 			db.stats.SubscriptionsTotal++
 			db.stats.SubscriptionsCurrent++
 			db.clientStats[clientID].SubscriptionsTotal++
@@ -296,7 +298,7 @@ func (db *TrieDB) SubscribeLocked(clientID string, subscriptions ...*gmqtt.Subsc
 		} else {
 			rs[k].AlreadyExisted = true
 		}
-		index[clientID][topicName] = node
+		index[clientID][key] = node
 	}
 	return rs
 }
@@ -325,12 +327,13 @@ func (db *TrieDB) UnsubscribeLocked(clientID string, topics ...string) {
 			index = db.userIndex
 			topicTrie = db.userTrie
 		}
+		key := subscription.GetFullTopicName(shareName, topic)
 		if _, ok := index[clientID]; ok {
-			if _, ok := index[clientID][topic]; ok {
+			if _, ok := index[clientID][key]; ok {
 				db.stats.SubscriptionsCurrent--
 				db.clientStats[clientID].SubscriptionsCurrent--
 			}
-			delete(index[clientID], topic)
+			delete(index[clientID], key)
 		}
 		topicTrie.unsubscribe(clientID, topic, shareName)
 	}
@@ -344,14 +347,25 @@ func (db *TrieDB) Unsubscribe(clientID string, topics ...string) error {
 	return nil
 }
 
-func (db *TrieDB) unsubscribeAll(index map[string]map[string]*topicNode, clientID string) {
+func (db *TrieDB) unsubscribeAll(index map[string]map[string]*topicNode, clientID string, shared bool) {
 	db.stats.SubscriptionsCurrent -= uint64(len(index[clientID]))
 	if db.clientStats[clientID] != nil {
 		db.clientStats[clientID].SubscriptionsCurrent -= uint64(len(index[clientID]))
 	}
 	for topicName, node := range index[clientID] {
-		delete(node.clients, clientID)
-		if len(node.clients) == 0 && len(node.children) == 0 {
+		if shared {
+			var shareName string
+			shareName, topicName = subscription.SplitTopic(topicName)
+			if c := node.shared[shareName]; c != nil {
+				delete(c, clientID)
+				if len(c) == 0 {
+					delete(node.shared, shareName)
+				}
+			}
+		} else {
+			delete(node.clients, clientID)
+		}
+		if len(node.clients) == 0 && len(node.shared) == 0 && len(node.children) == 0 {
 			ss := strings.Split(topicName, "/")
 			delete(node.parent.children, ss[len(ss)-1])
 		}
@@ -361,9 +375,9 @@ func (db *TrieDB) unsubscribeAll(index map[string]map[string]*topicNode, clientI
 
 // UnsubscribeAllLocked is the non thread-safe version of UnsubscribeAll
 func (db *TrieDB) UnsubscribeAllLocked(clientID string) {
-	db.unsubscribeAll(db.userIndex, clientID)
-	db.unsubscribeAll(db.systemIndex, clientID)
-	db.unsubscribeAll(db.sharedIndex, clientID)
+	db.unsubscribeAll(db.userIndex, clientID, false)
+	db.unsubscribeAll(db.systemIndex, clientID, false)
+	db.unsubscribeAll(db.sharedIndex, clientID, true)
 }
 
 // UnsubscribeAll delete all subscriptions of the client
